@@ -282,6 +282,10 @@ func (ex *Exec) freshCheck(fr *Frame, st *State, key string, names []string, pos
 func (ex *Exec) callStaticBind(fr *Frame, st *State, fn *ssa.Function, args []Val, bind []Val, pos token.Pos, sig *types.Signature) []Outcome {
 	key := funcKey(fn)
 	fsig := fn.Signature
+	if ex.lockOp(fr, st, key, args, pos) {
+		return []Outcome{{St: st}}
+	}
+	ex.guardedArgs(fr, st, fn, args, pos)
 	{
 		ns, ts := fnParamInfo(fn)
 		ex.checkAsserts(fr, st, key, ns, ts, args, pos)
@@ -508,6 +512,14 @@ func (ex *Exec) applyContract(fr *Frame, st *State, c *Contract, obj *types.Func
 func (ex *Exec) applyContractNamed(fr *Frame, st *State, c *Contract, names []string, ptypes []types.Type, sig *types.Signature, args []Val, pos token.Pos, fn *ssa.Function) []Outcome {
 	c.Used = true
 	key := c.Key
+	// variadic argument arrays are temporaries built by the caller: capture their contents now, so that the
+	// contract can talk about them after the call's effects have been applied
+	args = append([]Val(nil), args...)
+	for i, a := range args {
+		if sl, ok := a.(*SliceV); ok && sl.ArrPtr != nil && sl.ArrPtr.Cell != nil {
+			args[i] = ex.sliceToHeap(st, sl)
+		}
+	}
 	for _, a := range args {
 		if fv, ok := a.(*FuncV); ok && fv.Fn != nil && fv.Fn.Parent() != nil && isRepoFunc(fv.Fn) && fr.depth < ex.maxDepth {
 			// a callee used by contract may invoke the closure it is handed, at any time and with any
